@@ -2,5 +2,12 @@
 
 package server
 
+import "github.com/zilliztech/milvus-cdc/server/model/meta"
+
 // verifSkipConnectProbe is a hook of the verification harness (build tag "verif"); always false here.
 func verifSkipConnectProbe() bool { return false }
+
+// verifNewReplicateEntity is a hook of the verification harness (build tag "verif"); never taken here.
+func verifNewReplicateEntity(e *MetaCDC, info *meta.TaskInfo) (*ReplicateEntity, bool, error) {
+	return nil, false, nil
+}
